@@ -292,10 +292,24 @@ func ruleReduceSign(w *World, r *RuleResult) {
 }
 
 func ruleNumDigitsSymmetry(w *World, r *RuleResult) {
-	f := w.fn("NumDigits")
-	if f == nil {
+	top := w.fn("NumDigits")
+	if top == nil {
 		r.anchorMissing("NumDigits")
 		return
+	}
+	// NumDigits and the helpers it may be split into; in each, "b" is its *BigInt parameter
+	type scope struct {
+		f *ssa.Function
+		b *ssa.Parameter
+	}
+	var scopes []scope
+	for _, g := range w.closureFuncs(top) {
+		for _, p := range g.Params {
+			if isBigIntPtr(p.Type()) {
+				scopes = append(scopes, scope{g, p})
+				break
+			}
+		}
 	}
 	type arm struct {
 		sign   int64
@@ -305,44 +319,48 @@ func ruleNumDigitsSymmetry(w *World, r *RuleResult) {
 	for _, a := range []arm{{1, "border", token.LSS}, {-1, "nborder", token.GTR}} {
 		key := fmt.Sprintf("NumDigits | arm Sign()==%d compares with %s", a.sign, a.border)
 		ok := false
-		for _, c := range w.callsTo(f, "(*BigInt).Cmp") {
-			if c.Common().Args[0] != ssa.Value(f.Params[0]) {
-				continue
-			}
-			tgt := w.exprOf(f, c.Common().Args[1]).String()
-			if !strings.HasSuffix(tgt, "."+a.border) {
-				continue
-			}
-			// guard: the dominating tests on b.Sign() (and b.BitLen() != 0) leave exactly this sign
-			poss := w.possibleSigns(f, c.Block(), f.Params[0])
-			g := len(poss) == 1 && poss[0] == a.sign
-			// inside edge returns the entry's digits: cmp <op> 0 true → return val.digits
-			inside := false
-			if refs := c.Referrers(); refs != nil {
-				for _, u := range *refs {
-					bo, isB := u.(*ssa.BinOp)
-					if !isB || bo.Op != a.op {
-						continue
-					}
-					if k, isK := bo.Y.(*ssa.Const); !isK || ci(k) != 0 {
-						continue
-					}
-					if br := bo.Referrers(); br != nil {
-						for _, x := range *br {
-							if iff, isIf := x.(*ssa.If); isIf {
-								tb := iff.Block().Succs[0]
-								if rt, isRet := tb.Instrs[len(tb.Instrs)-1].(*ssa.Return); isRet && strings.HasSuffix(w.exprOf(f, rt.Results[0]).String(), ".digits") {
-									inside = true
+		for _, sc := range scopes {
+			f, bp := sc.f, sc.b
+			for _, c := range w.callsTo(f, "(*BigInt).Cmp") {
+				if c.Common().Args[0] != ssa.Value(bp) {
+					continue
+				}
+				tgt := w.exprOf(f, c.Common().Args[1]).String()
+				if !strings.HasSuffix(tgt, "."+a.border) {
+					continue
+				}
+				// guard: the dominating tests on b.Sign() (and b.BitLen() != 0) leave exactly this sign
+				poss := w.possibleSigns(f, c.Block(), bp)
+				g := len(poss) == 1 && poss[0] == a.sign
+				// inside edge returns the entry's digits: cmp <op> 0 true → return val.digits
+				inside := false
+				if refs := c.Referrers(); refs != nil {
+					for _, u := range *refs {
+						bo, isB := u.(*ssa.BinOp)
+						if !isB || bo.Op != a.op {
+							continue
+						}
+						if k, isK := bo.Y.(*ssa.Const); !isK || ci(k) != 0 {
+							continue
+						}
+						if br := bo.Referrers(); br != nil {
+							for _, x := range *br {
+								if iff, isIf := x.(*ssa.If); isIf {
+									tb := iff.Block().Succs[0]
+									if rt, isRet := tb.Instrs[len(tb.Instrs)-1].(*ssa.Return); isRet && strings.HasSuffix(w.exprOf(f, rt.Results[0]).String(), ".digits") {
+										inside = true
+									}
 								}
 							}
 						}
 					}
 				}
-			}
-			if g && inside {
-				ok = true
+				if g && inside {
+					ok = true
+				}
 			}
 		}
+		f := top
 		if ok {
 			r.ok(key, w.pos(f.Pos()), "guarded by the sign test; the inside edge returns the entry's digits", true)
 		} else {
@@ -352,46 +370,50 @@ func ruleNumDigitsSymmetry(w *World, r *RuleResult) {
 	// big path: |b| vs 10^n
 	key := "NumDigits | big path compares the absolute value"
 	ok := false
-	for _, c := range w.callsTo(f, "(*BigInt).Cmp") {
-		phi, isPhi := c.Common().Args[0].(*ssa.Phi)
-		if !isPhi {
-			continue
-		}
-		absOK, selfOK := false, false
-		for i, e := range phi.Edges {
-			if e == ssa.Value(f.Params[0]) {
-				selfOK = true
+	for _, sc := range scopes {
+		f, bp := sc.f, sc.b
+		for _, c := range w.callsTo(f, "(*BigInt).Cmp") {
+			phi, isPhi := c.Common().Args[0].(*ssa.Phi)
+			if !isPhi {
 				continue
 			}
-			// the other edge: a local set by Abs(b) under Sign() < 0
-			for _, ac := range w.callsTo(f, "(*BigInt).Abs") {
-				if basePtr(ac.Common().Args[0]) == basePtr(e) && ac.Common().Args[1] == ssa.Value(f.Params[0]) && ac.Block() == phi.Block().Preds[i] {
-					absOK = true
+			absOK, selfOK := false, false
+			for i, e := range phi.Edges {
+				if e == ssa.Value(bp) {
+					selfOK = true
+					continue
+				}
+				// the other edge: a local set by Abs(b) under Sign() < 0
+				for _, ac := range w.callsTo(f, "(*BigInt).Abs") {
+					if basePtr(ac.Common().Args[0]) == basePtr(e) && ac.Common().Args[1] == ssa.Value(bp) && ac.Block() == phi.Block().Preds[i] {
+						absOK = true
+					}
 				}
 			}
-		}
-		if tc, isC := c.Common().Args[1].(*ssa.Call); isC && w.calleeName(tc) == "tableExp10" && absOK && selfOK {
-			ok = true
-		}
-	}
-	// equivalent forms: CmpAbs(b, 10^n) (10^n is positive), or an unconditional |b| copy
-	for _, c := range w.callsTo(f, "(*BigInt).CmpAbs") {
-		if tc, isC := c.Common().Args[1].(*ssa.Call); isC && w.calleeName(tc) == "tableExp10" && c.Common().Args[0] == ssa.Value(f.Params[0]) {
-			ok = true
-		}
-	}
-	for _, c := range w.callsTo(f, "(*BigInt).Cmp") {
-		tc, isC := c.Common().Args[1].(*ssa.Call)
-		if !isC || w.calleeName(tc) != "tableExp10" {
-			continue
-		}
-		for _, ac := range w.callsTo(f, "(*BigInt).Abs") {
-			if _, isA := basePtr(c.Common().Args[0]).(*ssa.Alloc); isA && basePtr(ac.Common().Args[0]) == basePtr(c.Common().Args[0]) &&
-				ac.Common().Args[1] == ssa.Value(f.Params[0]) && ac.Block().Dominates(c.Block()) {
+			if tc, isC := c.Common().Args[1].(*ssa.Call); isC && w.calleeName(tc) == "tableExp10" && absOK && selfOK {
 				ok = true
 			}
 		}
+		// equivalent forms: CmpAbs(b, 10^n) (10^n is positive), or an unconditional |b| copy
+		for _, c := range w.callsTo(f, "(*BigInt).CmpAbs") {
+			if tc, isC := c.Common().Args[1].(*ssa.Call); isC && w.calleeName(tc) == "tableExp10" && c.Common().Args[0] == ssa.Value(bp) {
+				ok = true
+			}
+		}
+		for _, c := range w.callsTo(f, "(*BigInt).Cmp") {
+			tc, isC := c.Common().Args[1].(*ssa.Call)
+			if !isC || w.calleeName(tc) != "tableExp10" {
+				continue
+			}
+			for _, ac := range w.callsTo(f, "(*BigInt).Abs") {
+				if _, isA := basePtr(c.Common().Args[0]).(*ssa.Alloc); isA && basePtr(ac.Common().Args[0]) == basePtr(c.Common().Args[0]) &&
+					ac.Common().Args[1] == ssa.Value(bp) && ac.Block().Dominates(c.Block()) {
+					ok = true
+				}
+			}
+		}
 	}
+	f := top
 	if ok {
 		r.ok(key, w.pos(f.Pos()), "|b| (a = |b| on the negative edge and b otherwise, an unconditional Abs copy, or CmpAbs) is compared with tableExp10(n)", true)
 	} else {
